@@ -28,7 +28,11 @@ PROPERTY = "C11"
 RULE = ("A case is a dyadic refinement tree on [a, a+H] (a = k/8, H = odd*2^e: all coordinates exactly representable): "
         "a complete tree of depth 0..3 followed by 0..20 (thorough 30) random leaf splits (an interval between two "
         "neighbouring points is halved, the new point gets level max(neighbour levels)+1); for the balanced classes a "
-        "leaf *node* receives both children. Every case is run through all 3 slice groupings x 2 slice versions x 2 "
+        "leaf *node* receives both children. In every sub 8 of 17 draws put the interval into unusual units: length "
+        "(and offset, or offset 0, or an O(1) offset with a scaled length) multiplied by 2^-40, 2^-30, ~1e-9, ~1e-7, "
+        "~1e-6, ~1e-3, ~1e3 or 2^20 (the decimal ones rounded to an 11-bit mantissa), and about 1 in 7 trees is a "
+        "one-sided chain of 20..31 levels (towards a, towards b or zig-zag) with <= 36 points; class counters "
+        "domain-scale=*, offset=*, max-level>=27. Every tolerance is relative to the interval length. Every case is run through all 3 slice groupings x 2 slice versions x 2 "
         "container versions x forced balancing on/off. Non-trivial (sliced, global) = the tree has >= 3 distinct step "
         "widths AND the GROUPED/GROUPED_OPTIMIZED runs built at least one container with >= 2 slices. Non-trivial "
         "(complete) = depth >= 2. Non-trivial (balanced) = >= 3 distinct step widths (>= 7 points). Non-trivial "
@@ -49,6 +53,10 @@ ASSUMPTIONS = [
     "deviation seen is 1e-13*H only for the known Simpson finding on containers of >= 32 slices (which is then "
     "simply not reported), everything else is >= 1e-9*H",
     "LAGRANGE_* containers and ROMBERG_DEFAULT_CONST_SUBTRACTION slices are out of scope (statement)",
+    "unusual units: scales ~1e-9 .. ~1e3 are rounded to an 11-bit mantissa (e.g. 1e-9 -> 1.00044e-9); a scale with a "
+    "full 53-bit mantissa makes x_i+1 - x_i != (b-a)/2^level in floating point, which set_grid rejects by assertion, so "
+    "such grids are outside the accepted input domain; magnitudes from 2^-40*0.25 to 2^20*7 and offsets up to 16 "
+    "interval lengths (or O(1) offsets with lengths down to ~2^-32) are covered",
 ]
 
 TOL = 1e-11
@@ -341,7 +349,7 @@ def run_sliced(case):
         status = judge_weights(out, sub, w, used, a, H, cfg, containers, "fresh")
         any_simpson = any_simpson or status == "simpson"
         # the same call again must give the same weights (no hidden state in slices/containers)
-        w_again = list(eg.get_weights())
+        w_again = list(eg.get_weights()) if max(levels) <= 16 else w       # (skipped on deep chains: cost)
         if w_again != w:
             out.bad(sub + "/get-weights-not-repeatable", "second get_weights() differs; cfg=%s" % (cfg,))
         # re-used object: other grid first (weights computed), then this grid; integrate() must use the new weights
@@ -380,14 +388,77 @@ def run_sliced(case):
         out.cls("depth>=8")
     if len(xs) == 2:
         out.cls("no-inner-point")
+    scale_classes(out, case.get("scale", "1"), case.get("offset", "scaled"), max(levels))
     out.info.update(max_points=len(xs), max_depth=max(levels), max_distinct_widths=nwidths)
     return out
 
 
-def tree_params(draw, tier, min_points=2, allow_base=True):
-    a = draw(st.integers(-32, 32)) / 8.0
-    H = draw(st.sampled_from([1.0, 1.0, 2.0, 4.0, 0.5, 0.25, 3.0, 0.75, 5.0, 1.5, 7.0, 0.375]))
-    return a, H
+def _quantised(x, bits=11):
+    """nearest float with a `bits`-bit mantissa: 'about 1e-9' as a short dyadic number, so that the scaled grids stay
+    exactly representable (the library compares step widths with ==, a full 53-bit scale cannot be used)."""
+    m, e = math.frexp(x)
+    return math.ldexp(round(m * 2 ** bits) / 2 ** bits, e)
+
+
+# domains in unusual units: the interval (length and, in most cases, offset) is multiplied by one of these
+SCALES = {"2^-40": 2.0 ** -40, "2^-30": 2.0 ** -30, "1e-9": _quantised(1e-9), "1e-7": _quantised(1e-7),
+          "1e-6": _quantised(1e-6), "1e-3": _quantised(1e-3), "1e3": _quantised(1e3), "2^20": 2.0 ** 20}
+# 8 of 17 entries are unusual units; interleaved, because sampled_from prefers the front of the list
+SCALE_LABELS = [x for pair in zip(["2^-30", "1e-9", "2^-40", "1e-7", "2^20", "1e-6", "1e3", "1e-3"], ["1"] * 8) for x in pair] + ["1"]
+assert sorted(set(SCALE_LABELS) - {"1"}) == sorted(SCALES)
+
+
+def _low_bit(x):
+    """exponent of the lowest set bit of the float x (None for 0)"""
+    if x == 0:
+        return None
+    m, e = math.frexp(abs(x))
+    n = int(m * 2 ** 53)
+    return e - 53 + ((n & -n).bit_length() - 1)
+
+
+def representable(a, H, depth):
+    """True iff every a + H*j/2^depth (0 <= j <= 2^depth) is a float (so are all differences of such points)"""
+    lows = [b for b in (_low_bit(a), _low_bit(H) - depth) if b is not None]
+    top = max(abs(a), abs(a + H))
+    return math.frexp(top)[1] - min(lows) <= 52
+
+
+def tree_params(draw, tier, depth):
+    """interval for a tree of the given depth: (a, H, scale label, offset mode). By construction every grid point is
+    exactly representable (checked again in to_grid)."""
+    k = draw(st.integers(-32, 32))
+    H0 = draw(st.sampled_from([1.0, 1.0, 2.0, 4.0, 0.5, 0.25, 3.0, 0.75, 5.0, 1.5, 7.0, 0.375]))
+    label = draw(st.sampled_from(SCALE_LABELS))
+    sc = SCALES.get(label, 1.0)
+    mode = draw(st.sampled_from(["scaled", "scaled", "scaled", "zero", "unscaled"]))
+    H = H0 * sc
+    candidates = {"scaled": [k / 8.0 * sc, 0.0], "zero": [0.0], "unscaled": [k / 8.0, k / 8.0 * sc, 0.0]}[mode]
+    for idx, a in enumerate(candidates):
+        if representable(a, H, depth):
+            if a == 0.0:
+                mode = "zero"
+            elif mode == "unscaled" and idx == 1:
+                mode = "scaled"
+            return a, H, label, mode
+    raise ValueError("harness: no representable offset for H=%r depth=%d" % (H, depth))
+
+
+def depth_of(base, splits):
+    return max(dyadic_level(t) for t in tree_from_splits(base, splits))
+
+
+def chain_splits(draw, tier):
+    """one-sided deep refinement on base 0: a single path of 20..31 levels (towards a, towards b, or zig-zag through
+    the interior) plus 0..3 arbitrary splits; few points, very different step widths"""
+    n = draw(st.integers(20, 31))
+    kind = draw(st.sampled_from(["left", "right", "zigzag"]))
+    bits = [0] * n if kind == "left" else [1] * n if kind == "right" else draw(st.lists(st.integers(0, 1), min_size=n, max_size=n))
+    splits, idx = [0], 0
+    for b in bits[1:]:
+        idx += b
+        splits.append(idx)
+    return splits + draw(st.lists(st.integers(0, 63), min_size=0, max_size=3))
 
 
 def splits_strategy(tier, lo=0):
@@ -399,16 +470,28 @@ def splits_strategy(tier, lo=0):
                      st.lists(st.integers(0, 3), min_size=lo, max_size=hi))
 
 
+def base_and_splits(draw, tier, bases, chain_share=8):
+    """(base, splits): one in `chain_share` draws is a one-sided deep tree"""
+    if draw(st.integers(0, chain_share - 1)) == 0:
+        return 0, chain_splits(draw, tier)
+    return draw(st.sampled_from(bases)), draw(splits_strategy(tier))
+
+
+def scale_classes(out, label, mode, max_level):
+    out.cls("domain-scale=" + label, "offset=" + mode)
+    if max_level >= 27:
+        out.cls("max-level>=27")
+
+
 def sliced_strategy(tier):
     @st.composite
     def s(draw):
-        a, H = tree_params(draw, tier)
-        base = draw(st.sampled_from([0, 0, 1, 1, 2, 3]))
-        splits = draw(splits_strategy(tier))
+        base, splits = base_and_splits(draw, tier, [0, 0, 1, 1, 2, 3])
         base2 = draw(st.integers(0, 2))
         splits2 = draw(st.lists(st.integers(0, 63), min_size=0, max_size=6))
+        a, H, label, mode = tree_params(draw, tier, max(depth_of(base, splits), depth_of(base2, splits2)))
         lin = [draw(st.integers(-3, 3)), draw(st.sampled_from([1, -2, 3, 0.5]))]
-        return dict(a=a, H=H, base=base, splits=splits, base2=base2, splits2=splits2, lin=lin)
+        return dict(a=a, H=H, scale=label, offset=mode, base=base, splits=splits, base2=base2, splits2=splits2, lin=lin)
     return s()
 
 
@@ -421,6 +504,12 @@ def sliced_fixed():
         dict(a=1.0, H=2.0, base=2, splits=[3], base2=0, splits2=[0], lin=[2, -2]),
         dict(a=1.0, H=2.0, base=3, splits=[0, 8, 9], base2=3, splits2=[], lin=[2, 3]),
         dict(a=0.0, H=1.0, base=3, splits=[7], base2=1, splits2=[], lin=[-1, 1]),
+        # unusual magnitudes: refinement towards a down to level 30 on [0,1]; a depth-2 grid on [0,2^-30], on [1,1+2^-30]
+        # and on [3e6, 5e6]
+        dict(a=0.0, H=1.0, scale="1", offset="zero", base=0, splits=[0] * 30, base2=1, splits2=[], lin=[1, 2]),
+        dict(a=0.0, H=2.0 ** -30, scale="2^-30", offset="zero", base=2, splits=[], base2=1, splits2=[], lin=[1, 2]),
+        dict(a=1.0, H=2.0 ** -30, scale="2^-30", offset="unscaled", base=2, splits=[1], base2=1, splits2=[], lin=[1, 2]),
+        dict(a=3.0 * 2 ** 20, H=2.0 ** 21, scale="2^20", offset="scaled", base=2, splits=[1], base2=1, splits2=[], lin=[1, 2]),
     ]
 
 
@@ -483,6 +572,7 @@ def run_complete(case):
                 break
     out.nontrivial = m >= 2
     out.cls("m=%d" % m)
+    scale_classes(out, case.get("scale", "1"), case.get("offset", "scaled"), m)
     out.info.update(max_depth=m, max_rel_moment_error=worst)
     return out
 
@@ -490,13 +580,18 @@ def run_complete(case):
 def complete_strategy(tier):
     @st.composite
     def s(draw):
-        a, H = tree_params(draw, tier)
-        return dict(a=a, H=H, m=draw(st.integers(1, 6 if tier == "quick" else 7)))
+        m = draw(st.integers(1, 6 if tier == "quick" else 7))
+        a, H, label, mode = tree_params(draw, tier, m)
+        return dict(a=a, H=H, scale=label, offset=mode, m=m)
     return s()
 
 
 def complete_fixed():
-    return [dict(a=a, H=H, m=m) for (a, H) in [(0.0, 1.0), (1.0, 2.0), (-2.5, 0.75)] for m in range(1, 7)]
+    return [dict(a=a, H=H, m=m) for (a, H) in [(0.0, 1.0), (1.0, 2.0), (-2.5, 0.75)] for m in range(1, 7)] + \
+           [dict(a=a, H=H, scale=lab, offset=mode, m=m)
+            for (a, H, lab, mode) in [(0.0, 2.0 ** -30, "2^-30", "zero"), (1.0, 2.0 ** -30, "2^-30", "unscaled"),
+                                      (-3.0 * 2.0 ** -40, 2.0 ** -40, "2^-40", "scaled"), (2.0 ** 20, 3.0 * 2 ** 20, "2^20", "scaled")]
+            for m in (2, 4, 6)]
 
 
 # ----------------------------------------------------------------------------------------------------------------
@@ -552,6 +647,8 @@ def run_balanced(case):
     nw = distinct_widths(ts)
     out.nontrivial = nw >= 3 and len(xs) >= 7
     out.cls("source=" + case["source"])
+    scale_classes(out, case.get("scale", "1"), case.get("offset", "scaled"), max(levels))
+    out.cls("domain-scale=" + case.get("scale2", "1"))
     if max(levels) >= 5:
         out.cls("depth>=5")
     complete = len(xs) == 2 ** max(levels) + 1
@@ -563,15 +660,24 @@ def run_balanced(case):
 def balanced_strategy(tier):
     @st.composite
     def s(draw):
-        a, H = tree_params(draw, tier)
-        a2, H2 = tree_params(draw, tier)
         source = draw(st.sampled_from(["both-children", "both-children", "forced"]))
         if source == "both-children":
-            splits = draw(st.lists(st.integers(0, 63), min_size=0, max_size=14 if tier == "quick" else 24))
-            return dict(a=a, H=H, a2=a2, H2=H2, source=source, splits=splits)
-        base = draw(st.integers(1, 3))
-        splits = draw(splits_strategy(tier))
-        return dict(a=a, H=H, a2=a2, H2=H2, source=source, base=base, splits=splits)
+            # narrow indices keep refining the leftmost leaves: a one-sided balanced tree of depth up to 29
+            splits = draw(st.one_of(st.lists(st.integers(0, 63), min_size=0, max_size=14 if tier == "quick" else 24),
+                                    st.lists(st.integers(0, 63), min_size=0, max_size=14 if tier == "quick" else 24),
+                                    st.lists(st.integers(0, 1), min_size=16, max_size=28)))
+            depth = max(dyadic_level(t) for t in balanced_tree_from_splits(splits))
+            case = dict(source=source, splits=splits)
+        else:
+            base, splits = base_and_splits(draw, tier, [1, 2, 3])
+            if base == 0:
+                base = 1        # the forced source needs an inner point; a chain on base 1 is still one-sided
+            depth = depth_of(base, splits) + 1          # forcing adds siblings, never deeper than the deepest input level
+            case = dict(source=source, base=base, splits=splits)
+        a, H, label, mode = tree_params(draw, tier, depth)
+        a2, H2, label2, mode2 = tree_params(draw, tier, depth)
+        case.update(a=a, H=H, a2=a2, H2=H2, scale=label, offset=mode, scale2=label2)
+        return case
     return s()
 
 
@@ -620,18 +726,20 @@ def run_bintree(case):
         out.cls("already-full")
     if max(levels) >= 8:
         out.cls("depth>=8")
+    scale_classes(out, case.get("scale", "1"), case.get("offset", "scaled"), max(levels))
     return out
 
 
 def bintree_strategy(tier):
     @st.composite
     def s(draw):
-        a, H = tree_params(draw, tier)
-        base = draw(st.sampled_from([1, 1, 1, 2, 3]))
-        splits = draw(splits_strategy(tier))
+        base, splits = base_and_splits(draw, tier, [1, 1, 1, 2, 3])
+        if base == 0:
+            base = 1
         base2 = draw(st.integers(1, 2))
         splits2 = draw(st.lists(st.integers(0, 63), min_size=0, max_size=8))
-        return dict(a=a, H=H, base=base, splits=splits, base2=base2, splits2=splits2)
+        a, H, label, mode = tree_params(draw, tier, max(depth_of(base, splits), depth_of(base2, splits2)) + 1)
+        return dict(a=a, H=H, scale=label, offset=mode, base=base, splits=splits, base2=base2, splits2=splits2)
     return s()
 
 
@@ -706,6 +814,9 @@ def run_global(case):
                 first[key] = w
     out.nontrivial = nw >= 3 and any_multi and repeated
     out.cls("dim=%d" % dim, "cache=%s" % case["do_cache"])
+    for d in range(dim):
+        scale_classes(out, dims[d].get("scale", "1"), dims[d].get("offset", "scaled"),
+                      max(max(lv[d]) for (_, lv, _) in sets))
     if repeated:
         out.cls("key-repeated")
     if any_simpson:
@@ -723,9 +834,12 @@ def global_strategy(tier):
         cfg = [draw(st.sampled_from(["GROUPED", "GROUPED_OPTIMIZED", "UNIT"])),
                draw(st.sampled_from(SLICE_VERSIONS)), draw(st.sampled_from(CONTAINER_VERSIONS))]
         dims = []
-        shared = [[draw(st.integers(0, 3)), draw(st.lists(st.integers(0, 63), min_size=0, max_size=12))] for _ in range(nsets)]
+        def one_tree():
+            if draw(st.integers(0, 7)) == 0:
+                return [0, chain_splits(draw, tier)]
+            return [draw(st.integers(0, 3)), draw(st.lists(st.integers(0, 63), min_size=0, max_size=12))]
+        shared = [one_tree() for _ in range(nsets)]
         for d in range(dim):
-            a, H = tree_params(draw, tier)
             trees = []
             for k in range(nsets):
                 # dimensions frequently share the tree *shape* (same level list) on different intervals
@@ -734,8 +848,9 @@ def global_strategy(tier):
                 elif d == 0:
                     trees.append(shared[k])
                 else:
-                    trees.append([draw(st.integers(0, 3)), draw(st.lists(st.integers(0, 63), min_size=0, max_size=12))])
-            dims.append(dict(a=a, H=H, trees=trees))
+                    trees.append(one_tree())
+            a, H, label, mode = tree_params(draw, tier, max(depth_of(b, sp) for b, sp in trees))
+            dims.append(dict(a=a, H=H, scale=label, offset=mode, trees=trees))
         seq = draw(st.lists(st.integers(0, 2), min_size=2, max_size=6))
         return dict(cfg=cfg, dims=dims, seq=seq, do_cache=draw(st.sampled_from([True, True, False])),
                     reset_between=draw(st.booleans()))
@@ -805,7 +920,7 @@ def selftest():
 
 SUBS = [
     # quick: ~4 CPU-minutes in total (15-20 s wall on 16 idle cores); the budgets only cut in on a loaded machine
-    Sub("sliced", sliced_strategy, run_sliced, dict(quick=4000, thorough=50000),
+    Sub("sliced", sliced_strategy, run_sliced, dict(quick=3200, thorough=50000),
         budget_s=dict(quick=30, thorough=280), fixed_cases=sliced_fixed),
     Sub("complete", complete_strategy, run_complete, dict(quick=320, thorough=1500),
         budget_s=dict(quick=10, thorough=60), fixed_cases=complete_fixed),
